@@ -59,3 +59,11 @@ func (ps *Pieces) SimAnyBusy() bool {
 	}
 	return false
 }
+
+// SimData returns the buffer of piece i (nil if it holds none); read-only.
+func (ps *Pieces) SimData(i int) []byte {
+	if i < 0 || i >= len(ps.pieces) {
+		return nil
+	}
+	return ps.pieces[i].data
+}
